@@ -3,53 +3,53 @@ From Coq Require Import Lia.
 From Coercion.Secure Require Import GoVal SecureModel SecureSpec SecureProofs Surfaces.
 
 (* ---------- scrub commutes with the embedding of the workflow structs ---------- *)
-Lemma scrub_attempt_gv : forall k, scrub false (attempt_gv k) = attempt_gv (scrub_attempt k).
+Lemma scrub_attempt_gv : forall k, scrub (attempt_gv k) = attempt_gv (scrub_attempt k).
 Proof. intros [r e]. destruct e; reflexivity. Qed.
 
 Lemma scrub_attempts_gv : forall o,
-  scrub false (attempts_gv o) = attempts_gv (match o with None => None | Some l => Some (map scrub_attempt l) end).
+  scrub (attempts_gv o) = attempts_gv (match o with None => None | Some l => Some (map scrub_attempt l) end).
 Proof.
   intros [l|]; [|reflexivity]. unfold attempts_gv. simpl. f_equal. f_equal.
   rewrite !map_map. apply map_ext. intros k. rewrite <- scrub_attempt_gv. reflexivity.
 Qed.
 
-Lemma scrub_action_gv : forall a, scrub false (action_gv a) = action_gv (scrub_action a).
+Lemma scrub_action_gv : forall a, scrub (action_gv a) = action_gv (scrub_action a).
 Proof.
   intros [r o]. unfold action_gv, scrub_action. simpl a_req. simpl a_attempts.
   rewrite <- scrub_attempts_gv. reflexivity.
 Qed.
 
-Lemma scrub_actions_gv : forall l, scrub false (actions_gv l) = actions_gv (map scrub_action l).
+Lemma scrub_actions_gv : forall l, scrub (actions_gv l) = actions_gv (map scrub_action l).
 Proof.
   intros l. unfold actions_gv. simpl. f_equal. f_equal. rewrite !map_map. apply map_ext.
   intros a. rewrite <- scrub_action_gv. reflexivity.
 Qed.
 
-Lemma scrub_checks_gv : forall c, scrub false (checks_gv c) = checks_gv (map scrub_action c).
+Lemma scrub_checks_gv : forall c, scrub (checks_gv c) = checks_gv (map scrub_action c).
 Proof. intros c. unfold checks_gv. rewrite <- scrub_actions_gv. reflexivity. Qed.
 
-Lemma scrub_checks_opt_gv : forall o, scrub false (checks_opt_gv o) = checks_opt_gv (scrub_checks_opt o).
+Lemma scrub_checks_opt_gv : forall o, scrub (checks_opt_gv o) = checks_opt_gv (scrub_checks_opt o).
 Proof. intros [c|]; [|reflexivity]. unfold checks_opt_gv, scrub_checks_opt. rewrite <- scrub_checks_gv. reflexivity. Qed.
 
-Lemma scrub_seq_gv : forall s, scrub false (seq_gv s) = seq_gv (map scrub_action s).
+Lemma scrub_seq_gv : forall s, scrub (seq_gv s) = seq_gv (map scrub_action s).
 Proof. intros s. unfold seq_gv. rewrite <- scrub_actions_gv. reflexivity. Qed.
 
-Lemma scrub_block_gv : forall b, scrub false (block_gv b) = block_gv (scrub_block b).
+Lemma scrub_block_gv : forall b, scrub (block_gv b) = block_gv (scrub_block b).
 Proof.
   intros b. unfold block_gv, scrub_block. simpl b_bypass. simpl b_pre. simpl b_cont. simpl b_post. simpl b_deferred. simpl b_seqs.
   rewrite <- !scrub_checks_opt_gv.
   replace (VSlice (Some (map (fun s => ptr_to (seq_gv s)) (map (map scrub_action) (b_seqs b)))))
-    with (scrub false (VSlice (Some (map (fun s => ptr_to (seq_gv s)) (b_seqs b))))).
+    with (scrub (VSlice (Some (map (fun s => ptr_to (seq_gv s)) (b_seqs b))))).
   - reflexivity.
   - simpl. f_equal. f_equal. rewrite !map_map. apply map_ext. intros s. rewrite <- scrub_seq_gv. reflexivity.
 Qed.
 
-Lemma scrub_plan_gv : forall p, scrub false (plan_gv p) = plan_gv (scrub_plan p).
+Lemma scrub_plan_gv : forall p, scrub (plan_gv p) = plan_gv (scrub_plan p).
 Proof.
   intros p. unfold plan_gv, scrub_plan. simpl p_bypass. simpl p_pre. simpl p_cont. simpl p_post. simpl p_deferred. simpl p_blocks.
   rewrite <- !scrub_checks_opt_gv.
   replace (VSlice (Some (map (fun b => ptr_to (block_gv b)) (map scrub_block (p_blocks p)))))
-    with (scrub false (VSlice (Some (map (fun b => ptr_to (block_gv b)) (p_blocks p))))).
+    with (scrub (VSlice (Some (map (fun b => ptr_to (block_gv b)) (p_blocks p))))).
   - reflexivity.
   - simpl. f_equal. f_equal. rewrite !map_map. apply map_ext. intros b. rewrite <- scrub_block_gv. reflexivity.
 Qed.
@@ -173,7 +173,7 @@ Proof.
 Qed.
 
 (* the payloads of a scrubbed skeleton are the scrubbed payloads *)
-Lemma pf_scrub_action : forall w a, pf w (scrub_action a) = map (scrub false) (pf w a).
+Lemma pf_scrub_action : forall w a, pf w (scrub_action a) = map (scrub) (pf w a).
 Proof.
   intros w [r [l|]]; destruct w; unfold pf, action_reqs, action_resps; simpl; try reflexivity.
   rewrite !map_map. reflexivity.
@@ -185,19 +185,19 @@ Proof.
   intros A B f g h l H. induction l as [|a l IH]; [reflexivity|]. simpl. rewrite map_app, IH, H. reflexivity.
 Qed.
 
-Lemma pf_scrub_actions : forall w l, flat_map (pf w) (map scrub_action l) = map (scrub false) (flat_map (pf w) l).
+Lemma pf_scrub_actions : forall w l, flat_map (pf w) (map scrub_action l) = map (scrub) (flat_map (pf w) l).
 Proof. intros w l. apply flat_map_map_comm. apply pf_scrub_action. Qed.
 
-Lemma pf_scrub_checks_opt : forall w o, checks_opt_map (pf w) (scrub_checks_opt o) = map (scrub false) (checks_opt_map (pf w) o).
+Lemma pf_scrub_checks_opt : forall w o, checks_opt_map (pf w) (scrub_checks_opt o) = map (scrub) (checks_opt_map (pf w) o).
 Proof. intros w [c|]; [|reflexivity]. apply pf_scrub_actions. Qed.
 
-Lemma pf_scrub_block : forall w b, block_map (pf w) (scrub_block b) = map (scrub false) (block_map (pf w) b).
+Lemma pf_scrub_block : forall w b, block_map (pf w) (scrub_block b) = map (scrub) (block_map (pf w) b).
 Proof.
   intros w b. unfold block_map, scrub_block. simpl. rewrite !map_app, !pf_scrub_checks_opt.
   do 5 f_equal. apply flat_map_map_comm. intros s. apply pf_scrub_actions.
 Qed.
 
-Lemma pf_scrub_plan : forall w p, plan_map (pf w) (scrub_plan p) = map (scrub false) (plan_map (pf w) p).
+Lemma pf_scrub_plan : forall w p, plan_map (pf w) (scrub_plan p) = map (scrub) (plan_map (pf w) p).
 Proof.
   intros w p. unfold plan_map, scrub_plan. simpl. rewrite !map_app, !pf_scrub_checks_opt.
   do 5 f_equal. apply flat_map_map_comm. intros b. apply pf_scrub_block.
@@ -425,18 +425,18 @@ End CloneFacts.
 Definition scrubbed_copy_of (r' r : gv) : Prop :=
   (forall x, sec_at r' x -> hidden x) /\ erase r' = erase r.
 
-Lemma Forall2_map_scrub : forall l, Forall2 scrubbed_copy_of (map (scrub false) l) l.
+Lemma Forall2_map_scrub : forall l, Forall2 scrubbed_copy_of (map (scrub) l) l.
 Proof.
   induction l as [|r l IH]; simpl; constructor; [|assumption].
   split; [intros x; apply scrub_sec_hidden | apply erase_scrub].
 Qed.
 
 Lemma finish_struct : forall fs, wf (VStruct fs) = true ->
-  finish false (VStruct fs) = OOk (ptr_to (scrub false (VStruct fs))).
+  finish false (VStruct fs) = OOk (ptr_to (scrub (VStruct fs))).
 Proof. intros fs W. unfold finish, ptr_to. rewrite secure_computes_scrub by exact W. reflexivity. Qed.
 
-Lemma sec_at_scrub_root : forall v x, sec_at (ptr_to (scrub false v)) x -> hidden x.
-Proof. intros v x S. apply (scrub_sec_hidden (VPtr (Some v)) false x). exact S. Qed.
+Lemma sec_at_scrub_root : forall v x, sec_at (ptr_to (scrub v)) x -> hidden x.
+Proof. intros v x S. apply (scrub_sec_hidden (VPtr (Some v)) x). exact S. Qed.
 
 Lemma collect_ptr_to : forall n v, collect n (ptr_to v) = collect n v.
 Proof. reflexivity. Qed.
